@@ -335,6 +335,7 @@ pub struct Session {
     violations: Vec<Violation>,
     start: Instant,
     replay: Option<(String, u64)>,
+    replay_signature: Option<String>,
     notes: Vec<String>,
 }
 
@@ -359,6 +360,7 @@ impl Session {
     }
 
     pub fn with_args(engine: &str, args: Args) -> Session {
+        let mut replay_signature = None;
         let replay = args.replay.as_ref().map(|p| {
             let txt = std::fs::read_to_string(p).unwrap_or_else(|e| {
                 eprintln!("cannot read replay file {}: {e}", p.display());
@@ -368,6 +370,7 @@ impl Session {
                 eprintln!("bad replay file: {e}");
                 std::process::exit(2)
             });
+            replay_signature = j["signature"].as_str().map(|s| s.to_string());
             (
                 j["part"].as_str().unwrap_or("").to_string(),
                 j["case"].as_u64().unwrap_or(0),
@@ -384,6 +387,7 @@ impl Session {
             violations: Vec::new(),
             start: Instant::now(),
             replay,
+            replay_signature,
             notes: Vec::new(),
         }
     }
@@ -410,6 +414,9 @@ impl Session {
             None => (0, n_cases),
         };
         let verbose = self.args.verbose || self.replay.is_some();
+        let replaying = self.replay.is_some();
+        let want_sig: Option<String> = self.replay_signature.clone();
+        let replay_attempts: u64 = self.args.extra_u64("replay-attempts").unwrap_or(300).max(1);
         let next = AtomicU64::new(lo);
         let shared = Mutex::new(Shared {
             distinct: HashSet::new(),
@@ -444,6 +451,7 @@ impl Session {
                 let started = started.clone();
                 let live = &live;
                 let prop = prop.clone();
+                let want_sig = want_sig.clone();
                 let builder = std::thread::Builder::new().stack_size(256 << 20).name(format!("w{tid}"));
                 builder
                     .spawn_scoped(scope, move || {
@@ -456,10 +464,33 @@ impl Session {
                             }
                             current[tid].store(case, Ordering::Relaxed);
                             *started[tid].lock().unwrap() = Instant::now();
-                            let mut rng = Rng::for_case(seed, name, case);
-                            let mut out = CaseOut::new(verbose);
-                            let r = catch_unwind(AssertUnwindSafe(|| f(case, &mut rng, &mut out)));
-                            let panic_msg = r.err().map(|p| panic_text(&*p));
+                            // Replay: code under test may depend on per-process hash seeds, so a
+                            // recorded case is re-run (quietly) until it shows a violation again.
+                            let mut attempts_left = if replaying { replay_attempts } else { 1 };
+                            let (out, panic_msg) = loop {
+                                attempts_left -= 1;
+                                let mut rng = Rng::for_case(seed, name, case);
+                                let mut out = CaseOut::new(verbose && !replaying);
+                                let r = catch_unwind(AssertUnwindSafe(|| f(case, &mut rng, &mut out)));
+                                let panic_msg = r.err().map(|p| panic_text(&*p));
+                                let hit = match &want_sig {
+                                    Some(sig) => out.violations.iter().any(|v| &v.1 == sig) || panic_msg.as_ref().map_or(false, |m| sig.starts_with("panic/") && sig.contains(&sanitize_sig(m))),
+                                    None => !out.violations.is_empty() || panic_msg.is_some(),
+                                };
+                                if replaying && (hit || attempts_left == 0) {
+                                    eprintln!("replay: {} after {} attempt(s); verbose run of the same case follows", if hit { "violation reproduced" } else { "no violation" }, replay_attempts - attempts_left);
+                                    if hit {
+                                        // verbose re-run for the log (may or may not hit again)
+                                        let mut rng = Rng::for_case(seed, name, case);
+                                        let mut vout = CaseOut::new(true);
+                                        let _ = catch_unwind(AssertUnwindSafe(|| f(case, &mut rng, &mut vout)));
+                                    }
+                                    break (out, panic_msg);
+                                }
+                                if !replaying || attempts_left == 0 {
+                                    break (out, panic_msg);
+                                }
+                            };
                             local.push((case, out, panic_msg));
                             done.fetch_add(1, Ordering::Relaxed);
                             if local.len() >= BATCH {
